@@ -109,9 +109,9 @@ theorem C02_union_container_first_witness (std : Std) :
 /-! ### the structural round trip -/
 
 /-- **C02 (structure).** Below a main class with `class _(JSONWizard.Meta): v1 = True; v1_key_case = 'CAMEL'` (the default
-dump transform): for every type of the fragment int / float / str / bool / Decimal / Path / UUID / date / time / datetime
-(canonical tokens, under the named `StdLaws`, incl. the `Z` spelling read back by `fromisoformat`) / Optional[·] / list[·] /
-dict[str, ·] / plain dataclass (no customisation of its own, pairwise distinct camelCase keys — `RTV1.PlainCls`), nested
+dump transform): for every type of the fragment int / float / str / bool / Decimal / Path / UUID / date / time / datetime /
+non-negative timedelta (canonical tokens, under the named `StdLaws`, incl. the `Z` spelling read back by `fromisoformat`) /
+Enum (pairwise different values) / Optional[·] / list[·] / deque[·] / tuple[·, ...] / dict[str, ·] / plain dataclass (no customisation of its own, pairwise distinct camelCase keys — `RTV1.PlainCls`), nested
 to any depth, and every conforming value: whatever the dump produces, its JSON image loads back to exactly the value
 through the v1 loader. By induction over the conformance derivation; the dataclass case determines the shape of the
 dumped dict (`RTV1.dumpFields_shape`), shows that the generated field loop finds every field in it (`RTV1.v1Fields_ok`)
